@@ -55,7 +55,8 @@ class C08(Property):
             "strict PVL, ODL and PDS3 parsers (expected: LexerError or "
             "ParseError).  evaluations = loads.  Non-trivial plan: >=1 "
             "value lost with >=1 intact statement before it; distinct = "
-            "distinct event-log digests of runs containing such plans.")
+            "distinct event-log digests of runs containing such plans."
+            " Also generated: 1-3 dash-continued statements first (20%), another configuration used first in the process, the text handed over as bytes or a binary stream (20%), the caller's container classes (15%), runs of 600-2100 adjacent value-less parameters (1.5%), and pre-emption (20%): at a seeded line event of the default load another caller's complete default load runs, driven from the step meter's sys.monitoring callback; the load under test must return what it returns alone.")
     ASSUMPTIONS = [
         "the line of a parameter's '=' is 1 + the number of '\\n' characters "
         "before it (the definition documented in pvl/exceptions.py)",
